@@ -7,5 +7,6 @@ SigsSim   == SigsSmall \cup {S(-6, <<8, 8, 8, 8, 8, 8, 8>>), S(4, <<-32, 64>>), 
 WinSmall  == {<<0, 4>>, <<3, 3>>, <<18, 3>>}
 WinSim    == {<<0, 4>>, <<3, 3>>, <<18, 3>>, <<-4, 3>>, <<1, 6>>, <<999998, 4>>, <<5, 2>>}
 LevelBound == TLCGet("level") <= 7
+LevelBoundT == TLCGet("level") <= 9
 LevelBoundG == TLCGet("level") <= 5
 ====
